@@ -4,7 +4,7 @@ import casadi as ca
 import mpmath as mp
 import z3
 
-from ..harness import Harness, Claim, HarnessError
+from ..harness import Harness, Claim, HarnessError, StructureChanged
 from ..val import Val
 from .. import val as V
 from ..enc import Ctx
@@ -79,7 +79,7 @@ class Axioms(Harness):
                 with MatrixCut(("Euler",)) as mc:
                     r = fn()
                 if len(mc.calls) != 1 or not ca.is_equal(r.param, mc.calls[0][2], 2):
-                    raise HarnessError("matrix-based operation does not end in a single from_Matrix call")
+                    raise StructureChanged("matrix-based operation does not end in a single from_Matrix call")
                 return mc.calls[0][1]
             outs.append(cutcall(lambda: X * Y))
             outs.append(cutcall(lambda: X.inverse()))
@@ -206,7 +206,7 @@ class FromMatrixMrp(Harness):
         with MatrixCut(("Quat",)) as mc:
             Xb = G.from_Matrix(MX)
         if len(mc.calls) != 1:
-            raise HarnessError("expected exactly one SO3Quat.from_Matrix call inside MRP from_Matrix")
+            raise StructureChanged("expected exactly one SO3Quat.from_Matrix call inside MRP from_Matrix")
         _, A, P = mc.calls[0]
         return ca.Function(f"frommatrix_{self.gname}", [x, P], [MX, A, ca.SX(Xb.to_Matrix())])
 
